@@ -22,6 +22,8 @@ def student_code():
     for j, e in enumerate(ERRORS):
         lines.append('def fail_%d():\n    raise %s\n' % (j, e))
     lines.append('def add(a, b):\n    return a + b\n')
+    lines.append('def greet(name):\n    print("Hello, " + name + "!")\n    print("Welcome.")\n    return len(name)\n')
+    lines.append('def quiet(name):\n    return len(name)\n')
     return '\n'.join(lines)
 
 
@@ -98,7 +100,30 @@ def main():
                         'total': groups[-1].fields.get('total_count') if groups else None})
         except BaseException as e:
             uts.append({'raised': type(e).__name__ + ': ' + str(e)[:80]})
-    json.dump({'results': out, 'unit_tests': uts, 'n_values': len(VALUES),
+    # output assertions: on the execution itself, and on an execution that is no longer the most recent one
+    import contextlib
+    import io
+    OUT = ['assert_output', 'assert_not_output', 'assert_output_contains', 'assert_not_output_contains']
+    RX = ['assert_output_regex', 'assert_not_output_regex']
+    outs = []
+    for spec in data.get('outputs', []):
+        fn_name, arg, later, text, exact = spec['fn'], spec['arg'], spec['later'], spec['text'], spec['exact']
+        buf = io.StringIO()
+        with contextlib.redirect_stdout(buf):
+            {'greet': lambda n: (print('Hello, ' + n + '!'), print('Welcome.')), 'quiet': lambda n: None}[fn_name](arg)
+        rec = {'spec': spec, 'plain_output': buf.getvalue(), 'verdicts': {}}
+        for name in OUT + RX:
+            for mode in ('inline', 'stale'):
+                execution = S.call(fn_name, arg)
+                if mode == 'stale':
+                    for other in later:
+                        S.call(other[0], other[1])
+                if name in RX:
+                    rec['verdicts'][name + ':' + mode] = run_assert(name, [text, execution])
+                else:
+                    rec['verdicts'][name + ':' + mode] = run_assert(name, [execution, text], {'exact_strings': exact})
+        outs.append(rec)
+    json.dump({'results': out, 'unit_tests': uts, 'n_values': len(VALUES), 'outputs': outs,
                'reprs': [('nan' if isinstance(v, float) and v != v else repr(v)) for v in VALUES]}, open(sys.argv[1], 'w'))
 
 
